@@ -70,7 +70,8 @@ theorem parseObus_fuel (w fuel : Nat) (payload : Bytes) (acc : List Bytes) (hf :
     have : payload = [] := List.eq_nil_of_length_eq_zero (by omega)
     subst this; simp [parseObus]
   | succ fuel ih =>
-    rw [parseObus, parseObus (fuel := fuel)]
+    conv => lhs; rw [parseObus]
+    conv => rhs; rw [parseObus]
     split
     · rfl
     · split
@@ -110,16 +111,23 @@ theorem inv_resetFrameBuffer (P : Nat) (d : Dec) (h : Inv P d) : Inv P d.resetFr
 theorem inv_first (P : Nat) (d : Dec) (b : Bool) (h : Inv P d) : Inv P { d with firstPacketReceived := b } :=
   ⟨h.frag_eq, h.frag_le, h.fb_eq, h.fb_len, h.fb_le, h.fb_cnt⟩
 
+theorem getLastD_mem_cons (a : Bytes) (t : List Bytes) : t.getLastD a ∈ a :: t := by
+  induction t generalizing a with
+  | nil => simp
+  | cons b t ih => rw [List.getLastD_cons]; exact List.mem_cons_of_mem _ (ih b)
+
 theorem getLastD_mem_or (xs : List Bytes) : xs.getLastD [] = [] ∨ xs.getLastD [] ∈ xs := by
   cases xs with
   | nil => left; rfl
-  | cons a t => right; rw [List.getLastD_cons]; exact List.getLast_mem _ |> fun h => by
-      have : (a :: t).getLast (by simp) = t.getLastD a := by
-        cases t with
-        | nil => rfl
-        | cons b t' => simp [List.getLast_cons_cons, List.getLastD_cons]
-          exact (List.getLast_eq_getLastD ..)
-      rw [← this]; exact List.getLast_mem _
+  | cons a t => right; rw [List.getLastD_cons]; exact getLastD_mem_cons a t
+
+theorem holdLast_fb (d : Dec) (p : Pkt) (y : Bool) (obus : List Bytes) :
+    (holdLast d p y obus).1.frameBuffer = d.frameBuffer ∧ (holdLast d p y obus).1.frameBufferLen = d.frameBufferLen ∧
+    (holdLast d p y obus).1.frameBufferSize = d.frameBufferSize := by
+  unfold holdLast
+  split
+  · simp only; split <;> simp
+  · simp
 
 theorem holdLast_inv (P : Nat) (d : Dec) (p : Pkt) (y : Bool) (obus : List Bytes)
     (h : Inv P d) (hfr : d.fragments = [])
@@ -167,14 +175,14 @@ theorem decodeOBUs_inv (P : Nat) (d : Dec) (p : Pkt) (h : Inv P d) (hp : p.paylo
               · exact inv_resetFragments P _ (inv_first P d true h)
               · rename_i hsz
                 split
-                · exact ⟨by simp [h.frag_eq], by simp only; omega, h.fb_eq, h.fb_len, h.fb_le, h.fb_cnt⟩
+                · exact ⟨by simp [h.frag_eq], by first | omega | (simp only; omega), h.fb_eq, h.fb_len, h.fb_le, h.fb_cnt⟩
                 · apply holdLast_inv
                   · exact ⟨rfl, by simp [Dec.resetFragments], h.fb_eq, h.fb_len, h.fb_le, h.fb_cnt⟩
                   · rfl
                   · intro x hx
                     simp only [List.mem_cons] at hx
                     rcases hx with hx | hx
-                    · subst hx; rw [joinFragments_length]; simp only; omega
+                    · subst hx; rw [joinFragments_length]; omega
                     · have := hall x (List.mem_of_mem_tail hx); omega
         · apply holdLast_inv
           · exact inv_resetFragments P _ (inv_first P d true h)
@@ -203,8 +211,8 @@ theorem decodeOBUs_fb (d : Dec) (p : Pkt) :
               · simp [Dec.resetFragments]
               · split
                 · simp
-                · unfold holdLast; split <;> (try split) <;> simp [Dec.resetFragments]
-        · unfold holdLast; split <;> (try split) <;> simp [Dec.resetFragments]
+                · exact holdLast_fb _ _ _ _
+        · exact holdLast_fb _ _ _ _
 
 /-- **C08**: the invariant is preserved by `Decode` on EVERY packet of payload size ≤ `P`. -/
 theorem inv_decode (P : Nat) (d : Dec) (p : Pkt) (h : Inv P d) (hp : p.payload.length ≤ P) :
